@@ -116,6 +116,20 @@ fn run_case(bits: usize, m: usize, t: usize, seeded: bool, rseed: u64) -> Value 
             patterns.push((format!("value[{}]", j), v.to_le_bytes().to_vec()));
         }
     }
+    // derived images: the bit decomposition the prover commits to (a_L: one scalar 0/1 per bit; a_R = a_L - 1), per commitment
+    if bits >= 16 {
+        for (j, v) in values.iter().enumerate() {
+            let mut al = vec![];
+            let mut ar = vec![];
+            for i in 0..bits {
+                let b = Scalar::from((v >> i) & 1);
+                al.extend_from_slice(b.as_bytes());
+                ar.extend_from_slice((b - Scalar::ONE).as_bytes());
+            }
+            patterns.push((format!("a_L bits of value[{}]", j), al));
+            patterns.push((format!("a_R bits of value[{}]", j), ar));
+        }
+    }
     let commitments: Vec<RistrettoPoint> =
         values.iter().zip(blindings.iter()).map(|(v, r)| params.pc_gens().commit(&Scalar::from(*v), r).unwrap()).collect();
     let promises = vec![None; m];
@@ -208,6 +222,20 @@ fn run_case(bits: usize, m: usize, t: usize, seeded: bool, rseed: u64) -> Value 
     drop(w3);
     out["prove_drop_witness_spare"] = disarm_scan(&pat2);
     out["prove_spare_ok"] = json!(p3.is_ok());
+    // phase 6: a prove that FAILS half-way (a later member's promise exceeds its value): whatever was built from the earlier members'
+    // secrets before the error return must be wiped too
+    if m >= 2 {
+        let mut bad_promises: Vec<Option<u64>> = vec![None; m];
+        bad_promises[m - 1] = values[m - 1].checked_add(1).filter(|p| bits == 64 || *p < (1u64 << bits));
+        if bad_promises[m - 1].is_some() {
+            let st_bad = RangeStatement::init(params.clone(), commitments.clone(), bad_promises, None).unwrap();
+            let mut trb = Transcript::new(b"bpv-alloc");
+            arm();
+            let pb = RangeProof::<RistrettoPoint>::prove_with_rng(&mut trb, &st_bad, &witness, &mut prng);
+            out["prove_fails"] = disarm_scan(&patterns);
+            out["prove_fails_is_err"] = json!(pb.is_err());
+        }
+    }
     // the vector of openings itself: an opening that was pushed and popped again leaves its bytes (value, pointer) in the spare capacity
     let extra_v: u64 = rng.next_u64() | (1 << 63) | 0x0101_0101_0101_0101;
     let mut ops4: Vec<CommitmentOpening> = Vec::with_capacity(m + 2);
